@@ -60,7 +60,7 @@ template<class V> struct Plan<V, 16> {
     static void run() {
         std::vector<S> L = as_scalars<S>(alphabet_L(16, false)), K = as_scalars<S>(alphabet_K(16));
         DomProd3<S> d3(L, L, L, "L16 x L16 x L16");
-        if (opt().thorough) Ops<V>::run(erase<S>(DomFull1<S>()), erase<S>(DomFull2<S>()), erase<S>(d3), K);
+        if (exh16()) Ops<V>::run(erase<S>(DomFull1<S>()), erase<S>(DomFull2<S>()), erase<S>(d3), K);
         else Ops<V>::run(erase<S>(DomFull1<S>()), erase<S>(DomCross2<S>(L, "D16 x L16 union L16 x D16")), erase<S>(d3), K);
     }
 };
